@@ -232,6 +232,12 @@ func (c *Client) request(method string, params string) *CReq {
 		frame += `,"params":` + params
 	}
 	frame += "}"
+	for _, o := range c.ReqL {
+		if o.Resp == nil {
+			c.s.stat("concurrent_client_requests", 1)
+			break
+		}
+	}
 	c.Reqs[id] = r
 	c.ReqL = append(c.ReqL, r)
 	if r.Action == "unsubscribe" && params != "" {
@@ -390,6 +396,9 @@ type resourceSet struct {
 // addSet stores the resources of a resource set; returns the rids delivered.
 func (c *Client) addSet(rs *resourceSet, f *Frame) []string {
 	var rids []string
+	if len(c.Cache) > 0 && len(rs.Models)+len(rs.Collections) > 0 {
+		c.s.stat("resource_set_while_holding", 1)
+	}
 	for _, rid := range sortedKeys(rs.Models) {
 		var m map[string]any
 		if err := json.Unmarshal(rs.Models[rid], &m); err != nil {
@@ -434,9 +443,9 @@ func (c *Client) store(rid string, r *CRes, f *Frame) {
 		c.closeInterval(old, "resent")
 	}
 	if c.DeletedSeen[rid] {
-		if _, v := c.s.W.lookup(c.expandCID(rid)); v != nil && !v.Deleted && c.s.deletedByRefetch[v] && c.s.loadedAnew(v) {
-			// the delete event came from a failed reset re-fetch, the resource is
-			// still there: loaded anew, it lives again
+		if _, v := c.s.W.lookup(c.expandCID(rid)); v != nil && !v.Deleted && c.s.loadedAnew(v) {
+			// the delete event came from a not-found answer to a reset re-fetch or
+			// query request, the resource is still there: loaded anew, it lives again
 			delete(c.DeletedSeen, rid)
 		} else {
 			// a re-sent copy of a resource the client knows to be deleted stays deleted
@@ -775,6 +784,7 @@ func parseProto(p string) int {
 
 func (c *Client) onEvent(f *Frame) {
 	s := c.s
+	s.stat("client_event_frames", 1)
 	i := strings.LastIndexByte(f.Event, '.')
 	if i < 0 {
 		c.violate("C02", "b", "eventname", "client %s received an event without resource id: %s", c.Name, f.Raw)
